@@ -1,9 +1,12 @@
 package main
 
 import (
+	"bytes"
 	"flag"
 	"fmt"
+	"io"
 	"os"
+	"os/exec"
 	"runtime/debug"
 	"runtime/pprof"
 	"strings"
@@ -108,6 +111,14 @@ func main() {
 			fmt.Fprintln(os.Stderr, "no check for property", prop)
 			os.Exit(2)
 		}
+		if os.Getenv("VERIF_SUPERVISED") == "" {
+			os.Exit(supervise(prop, tier))
+		}
+		if os.Getenv("VERIF_SELFTEST_CRASH") != "" {
+			// self-test of the supervision: die the way a corrupted heap makes the runtime die
+			go func() { panic("self-test: unrecovered panic in a worker goroutine") }()
+			time.Sleep(time.Second)
+		}
 		rp := runner.NewReport(prop, tier)
 		code := func() (code int) {
 			defer func() {
@@ -124,4 +135,71 @@ func main() {
 		}()
 		os.Exit(code)
 	}
+}
+
+// tail keeps the last part of what was written to it.
+type tail struct {
+	buf bytes.Buffer
+	max int
+}
+
+func (t *tail) Write(p []byte) (int, error) {
+	t.buf.Write(p)
+	if t.buf.Len() > 2*t.max {
+		b := append([]byte{}, t.buf.Bytes()[t.buf.Len()-t.max:]...)
+		t.buf.Reset()
+		t.buf.Write(b)
+	}
+	return len(p), nil
+}
+
+// supervise runs the check in a child process. The library is driven through unsafe memory: a defect can corrupt memory so
+// that the Go runtime aborts the process (fatal error, unexpected signal) instead of raising a recoverable panic. Such a death
+// is reported as a violation with the runtime's message as evidence; any other exit status is passed through.
+func supervise(prop, tier string) int {
+	self, err := os.Executable()
+	if err != nil {
+		self = os.Args[0]
+	}
+	cmd := exec.Command(self, os.Args[1:]...)
+	cmd.Env = append(os.Environ(), "VERIF_SUPERVISED=1")
+	cmd.Stdout = os.Stdout
+	cmd.Stdin = nil
+	t := &tail{max: 1 << 16}
+	cmd.Stderr = io.MultiWriter(os.Stderr, t)
+	err = cmd.Run()
+	if err == nil {
+		return 0
+	}
+	code := -1
+	if ee, ok := err.(*exec.ExitError); ok {
+		code = ee.ExitCode()
+	}
+	if code == 1 {
+		return 1
+	}
+	out := t.buf.String()
+	crashed := strings.Contains(out, "fatal error:") || strings.Contains(out, "unexpected signal") || strings.Contains(out, "SIGSEGV") ||
+		strings.Contains(out, "SIGBUS") || strings.Contains(out, "panic:") || code == -1
+	if strings.Contains(out, "out of memory") || strings.Contains(out, "cannot allocate memory") {
+		fmt.Fprintln(os.Stderr, "the check ran out of memory; nothing is concluded")
+		return 2
+	}
+	if !crashed {
+		return code
+	}
+	lines := strings.Split(out, "\n")
+	if i := strings.Index(out, "fatal error:"); i >= 0 {
+		lines = strings.Split(out[i:], "\n")
+	} else if i := strings.Index(out, "panic:"); i >= 0 {
+		lines = strings.Split(out[i:], "\n")
+	}
+	if len(lines) > 60 {
+		lines = lines[:60]
+	}
+	rp := runner.NewReport(prop, tier)
+	rp.Violation(&runner.ReplayFile{Scenario: "check-" + prop, Sig: "check-process-died", Kind: "crash",
+		Msg:     fmt.Sprintf("the process exploring the library was aborted by the Go runtime (exit status %d): %s", code, strings.TrimSpace(lines[0])),
+		OpsText: lines, Extra: map[string]interface{}{"property": prop, "tier": tier}})
+	return rp.Finish("model_checking", []string{"the check did not complete: the exploring process was aborted by the Go runtime (memory corrupted through the library's unsafe storage?)"}, nil)
 }
